@@ -1,8 +1,9 @@
 import PbVerif.Lemmas.Morph
+import PbVerif.Lemmas.Hull
 /-! C14 — morphological baselines never exceed the data and commute with shifts.
 Property theorems only (model: `PbVerif.Model.Morph`, SciPy's reflect-mode flat morphology). -/
 namespace PbVerif.C14
-open PbVerif.Morph PbVerif.Lemmas
+open PbVerif.Morph PbVerif.Lemmas PbVerif.Lemmas.Hull
 
 /-- reflection commutes with symmetric-window erosion and dilation (any length ≥ 1, any h, also
 windows longer than the data) — the lemma that lets the finite-signal laws be read off the
@@ -42,5 +43,101 @@ theorem snip_shift (order hwL hwR : Nat) (dec : Bool) (padded : List Rat) (c : R
 /-- non-vacuity / sanity: concrete signals where the window exceeds the data length -/
 example : tophat 3 [3, 1, 4] = [1, 1, 1] ∧ mor 1 [3, 1, 4, 1, 5] = [1, 1, 1, 1, 1] := by decide +kernel
 example : snipCore 4 2 2 false [5, 5, 5, 7, 9, 6, 5, 5, 5] = [5, 7, 7, 6, 5] := by decide +kernel
+
+/-! ### rubberband without smoothing = THE lower convex hull
+`pybaselines/classification.py:_Classification.rubberband` (`lam` None/0): Qhull's vertices become `mask`, the
+baseline is `np.interp(x, x[mask], y[mask])` = `hullInterp pts mask` with `pts = zip x y`.  Qhull is a black box;
+the harness evaluates `isLowerHull pts mask` on every real output, and these theorems say what an accepted
+certificate implies.  `XInc pts` (x strictly increasing) is the code's guard `require_unique_x=True` after the
+wrapper's sort; `px pts i`/`py pts i` are the coordinates of the i-th point. -/
+
+/-- certificate accepted ⇒ the baseline has the data's length, is (a) at or below the data everywhere, (b) equal
+to the data at every masked vertex, and (c) convex: for every triple i<j<k of the grid the middle value lies on or
+below the chord of the outer two -/
+theorem lowerHull_cert_sound (pts : List (Rat × Rat)) (mask : List Bool) (hx : XInc pts)
+    (hc : isLowerHull pts mask = true) :
+    (hullInterp pts mask).length = pts.length ∧
+    (∀ i, i < pts.length → (hullInterp pts mask).getD i 0 ≤ py pts i) ∧
+    (∀ i, i < pts.length → mask.getD i false = true → (hullInterp pts mask).getD i 0 = py pts i) ∧
+    (∀ i j k, i < j → j < k → k < pts.length →
+      (px pts k - px pts i) * (hullInterp pts mask).getD j 0
+        ≤ (px pts k - px pts j) * (hullInterp pts mask).getD i 0 + (px pts j - px pts i) * (hullInterp pts mask).getD k 0) :=
+  ⟨hullInterp_length pts mask, fun _ hi => cert_le pts mask hx hc hi, fun _ hi hm => cert_touch pts mask hx hi hm,
+    cert_convex pts mask hx hc⟩
+
+/-- (c) in slope form: the slope from i to j never exceeds the slope from j to k -/
+theorem lowerHull_slopes_mono (pts : List (Rat × Rat)) (mask : List Bool) (hx : XInc pts)
+    (hc : isLowerHull pts mask = true) (i j k : Nat) (hij : i < j) (hjk : j < k) (hk : k < pts.length) :
+    ((hullInterp pts mask).getD j 0 - (hullInterp pts mask).getD i 0) / (px pts j - px pts i)
+      ≤ ((hullInterp pts mask).getD k 0 - (hullInterp pts mask).getD j 0) / (px pts k - px pts j) :=
+  (convex3_slopes (g := fun i => (hullInterp pts mask).getD i 0) (xinc_F hx i j hij (by omega)) (xinc_F hx j k hjk hk)).mp
+    (cert_convex pts mask hx hc i j k hij hjk hk)
+
+/-- the certified baseline is the GREATEST convex minorant of the data on the grid: every `g` that is convex
+(three-point inequality for all i<j<k, `Convex3`) and at or below the data is at or below the baseline -/
+theorem lowerHull_greatest (pts : List (Rat × Rat)) (mask : List Bool) (hx : XInc pts)
+    (hc : isLowerHull pts mask = true) (g : Nat → Rat) (hg : Convex3 pts g)
+    (hle : ∀ i, i < pts.length → g i ≤ py pts i) :
+    ∀ i, i < pts.length → g i ≤ (hullInterp pts mask).getD i 0 :=
+  fun _ hi => cert_greatest pts mask hx hc g hg hle hi
+
+/-- hence "the" lower convex hull: two masks that both pass the certificate (they may differ in collinear points)
+give the same baseline -/
+theorem lowerHull_unique (pts : List (Rat × Rat)) (m1 m2 : List Bool) (hx : XInc pts)
+    (h1 : isLowerHull pts m1 = true) (h2 : isLowerHull pts m2 = true) : hullInterp pts m1 = hullInterp pts m2 :=
+  cert_unique pts m1 m2 hx h1 h2
+
+/-- adding a constant to the data: the certificate accepts exactly the same masks, and the baseline moves by the
+constant (guard of the real code: `np.interp` raises on an empty `x[mask]`, so at least one masked point) -/
+theorem lowerHull_shift (c : Rat) (pts : List (Rat × Rat)) (mask : List Bool) :
+    isLowerHull (shiftPts c pts) mask = isLowerHull pts mask ∧
+    ((∃ i, i < pts.length ∧ mask.getD i false = true) →
+      hullInterp (shiftPts c pts) mask = (hullInterp pts mask).map (· + c)) :=
+  ⟨isLowerHull_shift c pts mask, hullInterp_shift c pts mask⟩
+
+/-- non-vacuity: a five-point hull with one point strictly above it (the interpolated value 1/3 is not a datum);
+a mask that skips the lowest point is rejected -/
+example : XInc [(0, 2), (1, 0), (2, 3), (4, 1), (5, 4)] := by unfold XInc; decide +kernel
+example : isLowerHull [(0, 2), (1, 0), (2, 3), (4, 1), (5, 4)] [true, true, false, true, true] = true ∧
+    hullInterp [(0, 2), (1, 0), (2, 3), (4, 1), (5, 4)] [true, true, false, true, true] = [2, 0, 1/3, 1, 4] ∧
+    isLowerHull [(0, 2), (1, 0), (2, 3), (4, 1), (5, 4)] [true, false, false, false, true] = false ∧
+    isLowerHull [(0, 2), (1, 0), (2, 3), (4, 1), (5, 4)] [true, true, true, true, true] = false := by decide +kernel
+/-- a convex minorant strictly below the hull somewhere: the hypothesis of `lowerHull_greatest` is satisfiable by
+something other than the hull itself -/
+example : Convex3 [(0, 2), (1, 0), (2, 3), (4, 1), (5, 4)] (fun i => [2, 0, 0, 0, 0].getD i 0) ∧
+    (∀ i, i < 5 → (fun i => [2, 0, 0, 0, 0].getD i 0) i ≤ py [(0, 2), (1, 0), (2, 3), (4, 1), (5, 4)] i) := by
+  constructor
+  · intro i j k hij hjk hk
+    exact (by decide +kernel : ∀ k, k < 5 → ∀ j, j < k → ∀ i, i < j →
+      (px [(0, 2), (1, 0), (2, 3), (4, 1), (5, 4)] k - px [(0, 2), (1, 0), (2, 3), (4, 1), (5, 4)] i) * [2, 0, 0, 0, 0].getD j 0
+        ≤ (px [(0, 2), (1, 0), (2, 3), (4, 1), (5, 4)] k - px [(0, 2), (1, 0), (2, 3), (4, 1), (5, 4)] j) * [2, 0, 0, 0, 0].getD i 0
+          + (px [(0, 2), (1, 0), (2, 3), (4, 1), (5, 4)] j - px [(0, 2), (1, 0), (2, 3), (4, 1), (5, 4)] i) * [2, 0, 0, 0, 0].getD k 0)
+      k hk j hjk i hij
+  · decide +kernel
+/-- two different accepted masks (a collinear point kept or dropped) with the same baseline -/
+example : isLowerHull [(0, 0), (1, 1), (2, 2), (3, 5)] [true, false, true, true] = true ∧
+    isLowerHull [(0, 0), (1, 1), (2, 2), (3, 5)] [true, true, true, true] = true ∧
+    hullInterp [(0, 0), (1, 1), (2, 2), (3, 5)] [true, false, true, true] = [0, 1, 2, 5] ∧
+    hullInterp [(0, 0), (1, 1), (2, 2), (3, 5)] [true, true, true, true] = [0, 1, 2, 5] := by decide +kernel
+example : hullInterp (shiftPts 7 [(0, 2), (1, 0), (2, 3), (4, 1), (5, 4)]) [true, true, false, true, true]
+    = [9, 7, 22/3, 8, 11] := by decide +kernel
+/-- the guard of the shift law is needed only because the model totalises `np.interp` on an empty sample list -/
+example : hullInterp (shiftPts 7 [(0, 2)]) [false] ≠ (hullInterp [(0, 2)] [false]).map (· + 7) := by decide +kernel
+
+/-- `segments`: `rubberband` takes the hull of each segment separately, marks all their vertices in ONE mask and calls
+`np.interp` once over the whole mask.  The last point of a segment and the first point of the next are hull vertices
+(the certificate demands both ends), so the baseline is the concatenation of the per-segment interpolants — each of which
+the theorems above describe.  (Two segments; any number follows by repeating the split.) -/
+theorem rubberband_segments_interp (A B : List (Rat × Rat)) (mA mB : List Bool) (hx : XInc (A ++ B))
+    (hlen : mA.length = A.length) (hA : 0 < A.length) (hlastA : mA.getD (A.length - 1) false = true)
+    (hB : 0 < B.length) (hfirstB : mB.getD 0 false = true) :
+    hullInterp (A ++ B) (mA ++ mB) = hullInterp A mA ++ hullInterp B mB :=
+  hullInterp_append A B mA mB hx hlen hA hlastA hB hfirstB
+example : isLowerHull [(0, 2), (1, 0), (2, 3)] [true, true, true] = true ∧
+    isLowerHull [(4, 1), (5, 4), (6, 3)] [true, false, true] = true ∧
+    hullInterp ([(0, 2), (1, 0), (2, 3)] ++ [(4, 1), (5, 4), (6, 3)]) ([true, true, true] ++ [true, false, true])
+      = [2, 0, 3, 1, 2, 3] ∧
+    isLowerHull ([(0, 2), (1, 0), (2, 3)] ++ [(4, 1), (5, 4), (6, 3)]) ([true, true, true] ++ [true, false, true]) = false := by
+  decide +kernel
 
 end PbVerif.C14
